@@ -89,6 +89,18 @@ def judge(ctx, kind, graph_seed, knobs, audio_mode="none"):
     except Exception as e:
         ctx.violate_exc("save_raises", f"save_raises:{kind}:{type(e).__name__}", e, spec=_spec)
     ctx.case((kind, f"opt{knobs.get('p_opt')}", f"share{knobs.get('p_share')}", "size" + str(knobs.get("size", 2))), _spec, nontrivial=nonempty >= 3)
+    if graph_seed % 3 == 0:
+        # the same process now saves a second, related collection (same pools of users / notes / recordings / tags),
+        # then the first one again: every document must be self-contained on its own
+        kind2 = gen.rng.choice(graphs.COLLECTIONS)
+        try:
+            gen.p_share = max(gen.p_share, 0.8)
+            obj2 = gen.build(kind2)
+            _spec = dict(_spec, second_collection=kind2)
+            IO.save(obj2, path, audio_dir=audio_dir)
+            IO.save(obj, path, audio_dir=audio_dir)
+        except Exception as e:
+            ctx.violate_exc("save_raises", f"save_raises_second_collection:{kind2}:{type(e).__name__}", e, spec=_spec)
     _spec = None
 
 
